@@ -69,7 +69,11 @@ def main():
             if "error" in r.stdout and passed == 0:
                 print(r.stdout)
             sh("rm -rf %s/target" % repo)
-        sh("mkdir -p %s && rsync -a --exclude target --exclude logs --exclude replays --exclude .git --exclude evidence --exclude seeded %s/ %s/" % (verif, VERIF, verif))
+        # the committed harness (HEAD), so that edits in progress in /verif do not leak into the run
+        if os.environ.get("MUT_WORKTREE"):
+            sh("mkdir -p %s && rsync -a --exclude target --exclude logs --exclude replays --exclude .git --exclude evidence --exclude seeded %s/ %s/" % (verif, VERIF, verif))
+        else:
+            sh("mkdir -p %s && git -C %s archive HEAD | tar -x -C %s && rm -rf %s/seeded %s/evidence %s/mutants" % (verif, VERIF, verif, verif, verif, verif))
         sh("mkdir -p %s/harness/target && cp -a %s/harness/target/ship %s/harness/target/chk %s/harness/target/ 2>/dev/null" % (verif, VERIF, VERIF, verif))
         for pid in ids:
             t0 = time.time()
